@@ -80,7 +80,8 @@ def check(name, props=None):
         else:
             for pid in (props or [m["property"]]):
                 t0 = time.time()
-                rc, out = sh(f"./check {pid} --tier quick", cwd=VERIF, timeout=7200)
+                env = dict(os.environ, VERIF_EVIDENCE_DIR=f"/tmp/seeded_evidence/{name}", VERIF_REPLAY_DIR=f"/tmp/seeded_evidence/{name}/replays")
+                rc, out = sh(f"./check {pid} --tier quick", cwd=VERIF, timeout=7200, env=env)
                 lines = [l for l in out.splitlines() if l.startswith(("VIOLATION", "KNOWN-FINDING", "["))]
                 res[pid] = {"exit": rc, "caught": rc == 1 and any(l.startswith("VIOLATION") for l in lines),
                             "lines": lines[:8], "wall_s": round(time.time() - t0)}
